@@ -440,7 +440,7 @@ def order_verdicts(prog, hist, queue_filter, label):
 GQ_DEFAULT, GQ_UTILITY, GQ_OVERCOMMIT = 20, 21, 22
 
 
-def build_full_graph(P, h, base=10, max_custom=6, allow_workloop=True, serial_bottom=False, inactive=False):
+def build_full_graph(P, h, base=10, max_custom=6, allow_workloop=True, serial_bottom=False, inactive=False, allow_main=False):
     n = 1 + h[base] % max_custom
     P.queue(GQ_DEFAULT, 2)
     P.queue(GQ_UTILITY, 2, qos=2)
@@ -452,6 +452,13 @@ def build_full_graph(P, h, base=10, max_custom=6, allow_workloop=True, serial_bo
             kind = 0
         if i == 0 and allow_workloop and b % 11 == 10:
             kind = 4
+        if i == 0 and allow_main and kind == 0 and (b >> 4) % 5 == 4:
+            # the bottom is the main queue: drained by workers after dispatch_main(), or (mainloop=1) kept bound to the main thread and serviced
+            # run-loop style through _dispatch_main_queue_callback_4CF. It cannot be suspended, retargeted, released or given a QoS.
+            P.queue(0, 3, -1)
+            P.cfg["mainloop"] = (b >> 3) & 1
+            P.features.add("main-queue-runloop" if P.cfg["mainloop"] else "main-queue")
+            continue
         tsel = (b >> 1) % 4
         target, flags = -1, 0
         if i > 0 and (tsel >= 2 or serial_bottom):
@@ -497,11 +504,12 @@ class FullGrammar(QGrammar):
     body_kinds = [("work", 3), ("async", 3), ("sync", 2), ("bsync", 1), ("aaw", 1), ("gasync", 1), ("await", 1)]
     max_depth = 2
     allow_workloop = True
+    allow_main = False
     serial_bottom = False
     pool_template = False
 
     def build_graph(self, P, h):
-        build_full_graph(P, h, allow_workloop=self.allow_workloop, serial_bottom=self.serial_bottom)
+        build_full_graph(P, h, allow_workloop=self.allow_workloop, serial_bottom=self.serial_bottom, allow_main=self.allow_main)
         P.groups = [0]
         P.pool_done = False
 
